@@ -1,4 +1,5 @@
 import CvxVerif.Gen.C19Safe
+import CvxVerif.Gen.C19SafeL
 import CvxVerif.Proofs.Dense
 /-!
 # C19 — no argument values make the C extension access memory outside its matrices
@@ -7,6 +8,9 @@ import CvxVerif.Proofs.Dense
   `C19_safe_<routine>`: in ideal integer arithmetic, whenever the argument checks (translated from the C source)
   let a call through, every element the BLAS routine addresses lies inside the Python buffers — for all
   integer arguments, flags and buffer sizes.  Statements come from `tools/translate/footprints.py`.
+* `Gen/C19SafeL_<routine>.lean` (generated on every run): the same for the 60 wrappers of `lapack.c`, theorem
+  `C19_safe_lapack_<routine>`: every array the LAPACK routine touches is a matrix of the element type read, is present
+  when the chosen job needs it, and contains the routine's footprint.  Statements from `tools/translate/footprints_lapack.py`.
 * this file: the index paths of `dense.c` (model `Model/Dense.lean`, tied by C15's correspondence).
 -/
 namespace CvxVerif.C19
